@@ -287,14 +287,20 @@ def man_case(kind, orientation="QSW"):
         else:
             start, acc = tm - dur / 2, d
         stop = start + dur
+        # the part of a burn that lies before the epoch of the orbit (t = 0) belongs to its past: thrust acts on
+        # [max(start, 0), stop] only
+        if stop <= 0:
+            x = cw_ref(env, n, t, x)
+            return {"x": fromq(x)}
+        on = start if start > 0 else 0
         if t < start:
             x = cw_ref(env, n, t, x)
         elif t < stop:
-            x = cw_ref(env, n, start, x)
-            x = cw_ref(env, n, t - start, x, acc)
+            x = cw_ref(env, n, on, x)
+            x = cw_ref(env, n, t - on, x, acc)
         else:
-            x = cw_ref(env, n, start, x)
-            x = cw_ref(env, n, dur, x, acc)
+            x = cw_ref(env, n, on, x)
+            x = cw_ref(env, n, stop - on, x, acc)
             x = cw_ref(env, n, t - stop, x)
         return {"x": fromq(x)}
 
@@ -313,7 +319,9 @@ def helper_case(kind, orientation, continuous=False):
         T_IN = T_IN + [("dv", "pos"), ("thd", "angle", {"lo": "free"}), ("dur", "timeof", {"angle": "thd", "rate": "n"})]
 
     def pre(v):
-        p = [v["tm"] >= 0, v["te"] >= 0]
+        # maneuvers dated at (or before) the epoch of an orbit belong to its past: same convention as ImpulsiveMan.check,
+        # and the only one under which propagating a propagated orbit does not apply them twice (man_chain/*)
+        p = [v["tm"] > 0, v["te"] >= 0]
         if kind.startswith("vbar"):
             p += [v["dur"] > 0]
         return p
@@ -438,9 +446,91 @@ def cases(tier):
     return cs
 
 
+def man_chain_case(kind, direction, orientation="QSW"):
+    """propagation composes through maneuvers: propagate to t1, then propagate the *returned* orbit (which carries the same
+    maneuver list) to t2 >= t1 -- equals the direct propagation to t2 (delta-v exactly once, thrust only inside its window);
+    direction 'back': from t1 back to the epoch -- restores the initial state"""
+    from beyond.orbits.man import ImpulsiveMan, ContinuousMan
+
+    inputs = [("n", "pos"), ("thm", "angle", {"lo": "free"}), ("tm", "timeof", {"angle": "thm", "rate": "n"}),
+              ("thd", "angle", {"lo": "free"}), ("dur", "timeof", {"angle": "thd", "rate": "n"}),
+              ("th1", "angle", {"lo": "free"}), ("t1", "timeof", {"angle": "th1", "rate": "n"}),
+              ("th2", "angle", {"lo": "free"}), ("t2", "timeof", {"angle": "th2", "rate": "n"})] + \
+             [(k, "real") for k in X6] + [(k, "real") for k in ("ax", "ay", "az")]
+
+    def mans(env, v):
+        dvec = [v["ax"], v["ay"], v["az"]]
+        if kind == "impulsive":
+            return [ImpulsiveMan(mk_date(env, v["tm"]), dvec)]
+        return [ContinuousMan(mk_date(env, v["tm"]), mk_td(env, v["dur"]), dv=dvec)]
+
+    def pre(v):
+        p = [v["tm"] > 0, v["dur"] > 0, v["t1"] >= 0]
+        return p + ([v["t2"] >= v["t1"]] if direction == "fwd" else [])
+
+    def run(env, v):
+        t_end = v["t2"] if direction == "fwd" else 0
+        prop = mk_prop(env, v["n"], orientation)
+        try:
+            if env.symbolic:
+                mk_orb(env, prop, _x0(v), mans=mans(env, v))
+                mid = prop.propagate(mk_date(env, v["t1"]))
+                prop2 = mk_prop(env, v["n"], orientation)
+                mk_orb(env, prop2, list(mid), t0=v["t1"], mans=mans(env, v))
+                out = prop2.propagate(mk_date(env, t_end))
+            else:
+                orb = mk_orb(env, prop, _x0(v), mans=mans(env, v))
+                mid = orb.propagate(mk_date(env, v["t1"]))            # public API: the result keeps maneuvers and propagator
+                out = mid.propagate(mk_date(env, t_end))
+            return {"x": list(out)}
+        finally:
+            if not env.symbolic:
+                _restore()
+
+    def ref(env, v, out):
+        if direction == "back":
+            return {"x": _x0(v)}
+        n, t, tm, dur = v["n"], v["t2"], v["tm"], v["dur"]
+        P = PERM if orientation == "TNW" else np.identity(3, dtype=int)
+        toq = lambda x: list(P.T @ env.vec(*x[:3])) + list(P.T @ env.vec(*x[3:]))
+        fromq = lambda x: list(P @ env.vec(*x[:3])) + list(P @ env.vec(*x[3:]))
+        x = toq(_x0(v))
+        d = list(P.T @ env.vec(v["ax"], v["ay"], v["az"]))
+        if kind == "impulsive":
+            if t >= tm:
+                x = cw_ref(env, n, tm, x)
+                x = x[:3] + [x[3] + d[0], x[4] + d[1], x[5] + d[2]]
+                x = cw_ref(env, n, t - tm, x)
+            else:
+                x = cw_ref(env, n, t, x)
+            return {"x": fromq(x)}
+        start, acc = tm, [k / dur for k in d]
+        stop = start + dur
+        if t < start:
+            x = cw_ref(env, n, t, x)
+        elif t < stop:
+            x = cw_ref(env, n, start, x)
+            x = cw_ref(env, n, t - start, x, acc)
+        else:
+            x = cw_ref(env, n, start, x)
+            x = cw_ref(env, n, dur, x, acc)
+            x = cw_ref(env, n, t - stop, x)
+        return {"x": fromq(x)}
+    sig = "CW chain: maneuver applied again when a propagated orbit is propagated further" if direction == "fwd" else \
+        "CW backward propagation across a maneuver ignores it"
+    return Case(f"man_chain/{kind}/{direction}/{orientation}", inputs, run, ref, pre=pre, timeout=120, tol=1e-5, abs_tol=1e-5,
+                signature=sig, maxpaths=200,
+                desc=f"{kind} maneuver, {orientation}: propagate(t1) then propagate(" + ("t2 >= t1) of the returned orbit equals "
+                     "propagate(t2)" if direction == "fwd" else "epoch) of the returned orbit restores the initial state"))
+
+
 def man_cases(tier):
     cs = [man_case("impulsive"), man_case("cont_dv"), man_case("cont_accel_median"), man_case("impulsive", "TNW"),
           man_case("cont_dv", "TNW")]
+    cs += [man_chain_case("impulsive", "fwd"), man_chain_case("cont_dv", "fwd"), man_chain_case("impulsive", "back"),
+           man_chain_case("cont_dv", "back")]
+    if tier != "quick":
+        cs += [man_chain_case("impulsive", "fwd", "TNW"), man_chain_case("cont_dv", "fwd", "TNW")]
     return cs
 
 
